@@ -149,6 +149,48 @@ def run(ctx):
                 expect.append((describe(ds), name, " ".join(py)))
                 reqs.append(f"impl-fetch {ds['m']} {ds['p']} {core.hexs(files[name])} {core.ilist(ids)}")
                 expect.append((describe(ds), name, " ".join(core.hexs(ds["payload"][cell]) for _, cell in lst)))
+    # ---- two scales written through ONE accessor before a single close (multi-scale destinations) ----
+    for _ in range(ctx.budget(1, 60)):
+        ds1 = shardlib.gen_dataset(rng, small=True)
+        ds2 = shardlib.gen_dataset(rng, small=True)
+        if rng.random() < 0.6:      # same sharding parameters: the same shard / minishard numbers occur in both scales
+            ds2.update({"m": ds1["m"], "s": ds1["s"], "p": ds1["p"]})
+        strategy = rng.choice(["in memory", "on disk", "on disk"])
+        inter = rng.random() < 0.6
+        tmp = tempfile.mkdtemp(prefix="ngv_c04_")
+        d2 = {"two_scales": True, "strategy": strategy, "interleaved": inter, "k": describe(ds1), "k2": describe(ds2)}
+        try:
+            try:
+                shardlib.write_two_scales(ds1, ds2, tmp, strategy, inter)
+            except Exception as exc:  # noqa
+                ctx.oracle_fail(f"storing two scales through one accessor raised {type(exc).__name__}: {exc}", d2)
+                continue
+            per_key = {"k": shardlib.shard_files(tmp, "k"), "k2": shardlib.shard_files(tmp, "k2")}
+        finally:
+            shutil.rmtree(tmp, ignore_errors=True)
+        ctx.case(("two-scales", json.dumps(d2, sort_keys=True)))
+        ctx.hist("two_scale_sessions", strategy + ("/interleaved" if inter else "/sequential"))
+        for key, ds in (("k", ds1), ("k2", ds2)):
+            for cell in ds["order"]:
+                findings = set()
+                try:
+                    got = shardlib.spec_fetch(ds, per_key[key], cell, findings)
+                    err = None
+                except shardlib.SpecReadError as exc:
+                    got, err = None, str(exc)
+                for kf in findings:
+                    ctx.oracle_fail("'gzip' encoding is written as a zlib stream, not gzip", dict(d2, cell=list(cell)), key=kf)
+                if got == ds["payload"][cell]:
+                    continue
+                if err and f8_applies(ds, cell) and ("slot" in err or "not listed" in err):
+                    ctx.oracle_fail("minishard index is not at its minishard's slot of the shard index "
+                                    "(a lower-numbered minishard of the shard is unused)",
+                                    dict(d2, scale=key, cell=list(cell), reader_error=err), key="F8-minishard-slot")
+                    continue
+                ctx.oracle_fail("a reader following the specification cannot retrieve a chunk stored while another "
+                                "scale was open for writing in the same accessor",
+                                dict(d2, scale=key, cell=list(cell), reader_error=err,
+                                     got=None if got is None else got.hex(), stored=ds["payload"][cell].hex()))
     if ctx.driver_ok and reqs:
         for rep, req, (dsd, name, want) in zip(core.driver_batch(reqs), reqs, expect):
             if rep != want:
